@@ -36,7 +36,7 @@ ASSUMPTIONS = ['return_samples=False is not exercised for axis=None (unspecified
 TRUSTED = ['numpy', 'pandas', 'reference label functions (validated in C06 / C07)']
 
 
-def partition_check(tag, flat, epochs, L, sig_len, nm, compare_labels=True):
+def partition_check(tag, flat, epochs, L, sig_len, nm, compare_labels=True, unordered=False):
     """flat: table with absolute samples; epochs: list of tables with epoch-relative samples"""
     n_ep = -(-sig_len // L)
     if len(epochs) != n_ep:
@@ -51,6 +51,20 @@ def partition_check(tag, flat, epochs, L, sig_len, nm, compare_labels=True):
         if list(ep.columns) != list(flat.columns):
             raise Violation(tag + ':columns', 'epoch %d: %s' % (k, list(ep.columns)))
         want_rows = np.flatnonzero((closing > k * L) & (closing <= (k + 1) * L))
+        if unordered:
+            # rows out of time order (stacked channels, a table ranked by a feature): the epoch holds its rows in table order
+            if len(ep) != len(want_rows):
+                raise Violation(tag + ':rows-in-epoch', 'epoch %d (%d, %d] holds %d rows, %d cycles close inside it' % (k, k * L, (k + 1) * L, len(ep), len(want_rows)))
+            sub = flat.iloc[want_rows]
+            for c in flat.columns:
+                a, b = sub[c].values, ep[c].values
+                if c in scols:
+                    a = a - k * L
+                same = ref.same_float(a, b) if a.dtype.kind == 'f' else np.array_equal(a, b)
+                if not same:
+                    raise Violation(tag + ':unordered-table', 'epoch %d column %s: %s' % (k, c, ref.first_diff(a, b)))
+            assignment.append((0, len(ep)))
+            continue
         if len(ep) != len(want_rows):
             raise Violation(tag + ':rows-in-epoch', 'epoch %d (%d, %d] holds %d rows, %d cycles close inside it (closing %s)' % (
                 k, k * L, (k + 1) * L, len(ep), len(want_rows), closing[:12].tolist()))
@@ -71,6 +85,10 @@ def partition_check(tag, flat, epochs, L, sig_len, nm, compare_labels=True):
                     raise Violation(tag + ':feature-value', 'epoch %d column %s: %s' % (k, c, ref.first_diff(a, b)))
         assignment.append((pos, len(ep)))
         pos += len(ep)
+    if unordered:
+        if sum(n for _, n in assignment) != len(flat):
+            raise Violation(tag + ':cycles-lost', '%d of %d cycles appear in the epochs' % (sum(n for _, n in assignment), len(flat)))
+        return bool(np.any(closing % L == 0)), any(n == 0 for _, n in assignment), False, assignment
     if pos != len(flat):
         raise Violation(tag + ':cycles-lost', '%d of %d flattened cycles appear in the epochs' % (pos, len(flat)))
     coincide = bool(np.any(closing % L == 0))
@@ -105,6 +123,11 @@ def check_epoch_df(case, rec):
         if c['method'] == 'amp':
             pipeline.trusted_burst_mask(c, x)
         flat = pipeline.analyse(c, x, return_samples=True)
+    order = case.get('row_order', 'time')
+    if order == 'by-feature':
+        flat = flat.sort_values('volt_amp', kind='stable').reset_index(drop=True)
+    elif order == 'reversed':
+        flat = flat.iloc[::-1].reset_index(drop=True)
     n_rows = len(flat)
     kind = case.get('index', 'range')
     if kind == 'offset':                   # e.g. the table after limit_df, which keeps the original labels
@@ -115,8 +138,8 @@ def check_epoch_df(case, rec):
     nm = ref.names(ref.table_center(flat))
     closing = flat[nm['next']].values.astype(int)
     periods = flat['period'].values
-    L = pick_epoch_len(case['epoch'], closing, periods, int(closing[-1]) + 5)
-    last = int(closing[-1])
+    L = pick_epoch_len(case['epoch'], closing, periods, int(closing.max()) + 5)
+    last = int(closing.max())
     if case['sig_len'][0] == 'multiple':
         sig_len = L * (-(-(last + case['sig_len'][1] % 7) // L))
     else:
@@ -128,8 +151,8 @@ def check_epoch_df(case, rec):
     ok, why = ref.frames_equal(flat, keep)
     if not ok:
         raise Violation('epoch_df:input-modified', why)
-    coincide, empty, spanning, _ = partition_check('epoch_df', keep, epochs, L, sig_len, nm)
-    rec.label('index:' + kind, 'table:' + case['table']['kind'], 'center:' + ref.table_center(flat), 'epoch:' + case['epoch'][0],
+    coincide, empty, spanning, _ = partition_check('epoch_df', keep, epochs, L, sig_len, nm, unordered=(order != 'time'))
+    rec.label('rows:' + order, 'index:' + kind, 'table:' + case['table']['kind'], 'center:' + ref.table_center(flat), 'epoch:' + case['epoch'][0],
               'boundary-coincidence' if coincide else 'no-coincidence', 'empty-epoch' if empty else 'no-empty-epoch',
               'burst-spans-boundary' if spanning else 'no-spanning-burst', 'sig_len:' + case['sig_len'][0])
     rec.nontrivial(coincide or empty or spanning)
@@ -144,6 +167,7 @@ def strat_epoch_df(draw, tier):
     else:
         table = {'kind': 'synthetic', 'recipe': draw(gen_tables.st_table_recipe()), 'method': draw(st.sampled_from(['cycles', 'amp']))}
     return {'table': table, 'index': draw(st.sampled_from(['range', 'range', 'offset', 'repeated'])),
+            'row_order': draw(st.sampled_from(['time', 'time', 'time', 'by-feature', 'reversed'])),
             'epoch': [draw(st.sampled_from(['coincide', 'coincide', 'short', 'arbitrary'])), draw(st.integers(0, 500)), draw(st.integers(0, 5))],
             'sig_len': [draw(st.sampled_from(['multiple', 'multiple', 'arbitrary'])), draw(st.integers(0, 100))]}
 
@@ -236,6 +260,25 @@ def check_axis_none(case, rec):
                                                  axis=None, return_samples=True, n_jobs=1), 60)
         if len(again) != len(epochs) or any(not ref.frames_equal(a, b)[0] for a, b in zip(again, epochs)):
             raise Violation('axis-none:second-call-differs', 'mode %s: repeating the call with the same argument objects changes the result' % case['mode'])
+    if case.get('other_values') and case['mode'] == 'dict':
+        c2 = gen.copy_json({k: v for k, v in c.items() if k != 'sig'})
+        c2['sig'] = c['sig']
+        fek2 = dict(c2.get('fek') or {})
+        nc = (fek2.get('filter_kwargs') or {}).get('n_cycles', 3)
+        fek2['filter_kwargs'] = {'n_cycles': {2: 3, 3: 4, 4: 5}.get(nc, 4)}
+        c2['fek'] = fek2
+        if gen.filt_len_of({'fs': c['fs'], 'f_range': c['f_range']}, fek2['filter_kwargs']) + 8 < len(xs):
+            cols2 = ref.ref_cycles(xs, c['fs'], tuple(c['f_range']), c['center'], fek2)
+            if cols2 is not None and len(cols2[nm['center']]) >= 2:
+                kw2 = gen.cf_kwargs(c2)
+                kw2.pop('return_samples')
+                with warnings.catch_warnings():
+                    warnings.simplefilter('ignore')
+                    flat2 = guarded(compute_features, xs.copy(), c['fs'], tuple(c['f_range']), return_samples=True, **gen.copy_json_kwargs(kw2))
+                    ep2 = with_timeout(lambda: guarded(compute_features_2d, sigs, c['fs'], tuple(c['f_range']), compute_features_kwargs=kw2,
+                                                       axis=None, return_samples=True, n_jobs=1), 60)
+                partition_check('axis-none[other option values]', flat2, ep2, L, len(xs), nm)
+                rec.label('second-call-other-values')
     rec.label(*gen.case_labels(c))
     rec.label('layout:' + layout, 'second-call' if case.get('second_call') else 'single-call')
     rec.label('mode:' + case['mode'], 'epochs:%s' % ('1' if n_ep == 1 else ('2-5' if n_ep <= 5 else '>5')),
@@ -259,7 +302,7 @@ def strat_axis_none(draw, tier):
             if c.get('bk'):
                 c['bk'].pop('min_n_cycles', None)
     return {'base': c, 'mode': mode, 'ths': ths, 'layout': draw(st.sampled_from(['C', 'C', 'F', 'T'])),
-            'second_call': draw(st.integers(0, 3)) == 0,
+            'second_call': draw(st.integers(0, 3)) == 0, 'other_values': draw(st.integers(0, 2)) == 0,
             'epoch': [draw(st.sampled_from(['coincide', 'coincide', 'short', 'arbitrary', 'arbitrary'])), draw(st.integers(0, 500)), draw(st.integers(0, 5))]}
 
 
